@@ -107,6 +107,17 @@ def run(rep, tier, seed, proof_broken=False):
                 if rc != 2:
                     k = known_match(kind, desc, inv, None)
                     fails.append((kind, "`%s`: `rocfl validate` exits %d instead of 2" % (desc, rc), k))
+                elif "[E" not in out:
+                    fails.append((kind, "`%s`: `rocfl validate` exits 2 but prints no error for the object" % desc, None))
+                # the report is an error report at every verbosity (-l) and with fixity checking off for structural damage
+                lvl = rng.choice(["info", "warn", "error"])
+                nofix = kind in corrupt.STRUCTURAL and rng.random() < 0.5
+                rc2, out2, err2 = valprop.cli_validate(rbin, lab.root, name, fixity=not nofix, extra=("-l", lvl))
+                rep.count("cli-level:%s:%s" % (lvl, "error-printed" if "[E" in out2 else "nothing"))
+                if rc == 2 and (rc2 != 2 or "[E" not in out2):
+                    k = known_match(kind, desc, inv, None)
+                    if not k:
+                        fails.append((kind, "`%s`: `rocfl validate -l %s%s` exits %d and prints %s" % (desc, lvl, " -n" if nofix else "", rc2, "no error" if "[E" not in out2 else "an error"), None))
                 lab.remove(name)
                 for ext in (".stash", ".dstash"):
                     p = d + ext
